@@ -25,6 +25,10 @@ def run(check, ctx):
     repo = ctx.repo
     der_signature_rows(check, repo)
     pss_em_length_rows(check, repo)
+    toy_group_rows(check, repo, thorough=ctx.tier == "thorough")
+    rsa_toy_rows(check, repo, thorough=ctx.tier == "thorough")
+    dss_zero_component_rows(check, repo)
+    rfc6979_conversion_rows(check, repo)
     # -- strict DER decoding of the (r, s) sequence -----------------------------
     mod = repo.module("Crypto.Signature.DSS")
     fn = repo.func(mod, "DssSigScheme.verify")
@@ -289,3 +293,439 @@ def pss_em_length_rows(check, repo):
     check.ob("K-pw", "K-pw|pss.verify.emlen", not wrong, mod.path, fn.lineno,
              extracted="; ".join(wrong[:3]) if wrong else "%d rows: EM is I2OSP(m, ceil((modBits-1)/8)) with emBits = modBits-1 for 7 modulus sizes including 1 mod 8; signatures not k bytes long refused" % n,
              expected="RFC 8017 8.1.2: the signature is k bytes, the encoded message emLen = ceil((modBits-1)/8) bytes")
+
+
+# ---------------------------------------------------------------------------------------------------------------
+# The signing and verification equations of ECDSA and DSA on complete toy groups.
+#
+# EccKey._sign/_verify and DsaKey._sign/_verify touch the group only through `G * k`, `P + Q`, `.x`, pow(g, k, p) and
+# arithmetic modulo the order, so they are generic in the group.  They are interpreted over a stand-in point class
+# that implements a real (tiny) curve, for EVERY private key, nonce and signature of that group, and compared with the
+# textbook algorithms of FIPS 186-4 6.3/6.4 and 4.6/4.7.  The curves are chosen with prime order n < p and points whose
+# x-coordinate is >= n, so that the reduction v = x_R mod n matters (on the NIST curves that case has probability
+# 2^-128 and no test vector of the pinned suite reaches it).
+_TPOINT_SRC = """
+class _TPoint(object):
+    def _mk(self, x, y, inf):
+        r = self.__class__()
+        r.P = self.P
+        r.A = self.A
+        r.inf = inf
+        r.x = 0 if inf else x
+        r.y = 0 if inf else y
+        r.xy = (r.x, r.y)
+        return r
+    def __add__(self, o):
+        if self.inf:
+            return o
+        if o.inf:
+            return self
+        p = self.P
+        if self.x == o.x:
+            if (self.y + o.y) % p == 0:
+                return self._mk(0, 0, True)
+            l = (3 * self.x * self.x + self.A) * pow(2 * self.y, p - 2, p) % p
+        else:
+            l = (o.y - self.y) * pow((o.x - self.x) % p, p - 2, p) % p
+        x = (l * l - self.x - o.x) % p
+        y = (l * (self.x - x) - self.y) % p
+        return self._mk(x, y, False)
+    def __mul__(self, k):
+        k = int(k)
+        r = self._mk(0, 0, True)
+        q = self
+        while k > 0:
+            if k & 1:
+                r = r + q
+            q = q + q
+            k >>= 1
+        return r
+    def __rmul__(self, k):
+        return self.__mul__(k)
+    def is_point_at_infinity(self):
+        return self.inf
+"""
+_TPOINT = []
+
+
+def _tpoint_class():
+    if not _TPOINT:
+        tree = ast.parse(_TPOINT_SRC)
+        c = tree.body[0]
+        for node in ast.walk(tree):
+            for ch in ast.iter_child_nodes(node):
+                ch._parent = node
+        for f in c.body:
+            f._qualname = "_TPoint." + f.name
+        c._qualname = "_TPoint"
+        c._vmethods = dict((f.name, f) for f in c.body if isinstance(f, ast.FunctionDef))
+        _TPOINT.append(c)
+    return _TPOINT[0]
+
+
+class _Toy(object):
+    def __init__(self, p, a, b):
+        self.p, self.a, self.b = p, a, b
+        pts = [(x, y) for x in range(p) for y in range(p) if (y * y - (x ** 3 + a * x + b)) % p == 0]
+        self.n = len(pts) + 1
+        self.G = pts[0]
+
+    def add(self, P, Q):
+        p = self.p
+        if P is None:
+            return Q
+        if Q is None:
+            return P
+        if P[0] == Q[0]:
+            if (P[1] + Q[1]) % p == 0:
+                return None
+            l = (3 * P[0] * P[0] + self.a) * pow(2 * P[1], -1, p) % p
+        else:
+            l = (Q[1] - P[1]) * pow(Q[0] - P[0], -1, p) % p
+        x = (l * l - P[0] - Q[0]) % p
+        return (x, (l * (P[0] - x) - P[1]) % p)
+
+    def mul(self, k, P):
+        R = None
+        while k:
+            if k & 1:
+                R = self.add(R, P)
+            P = self.add(P, P)
+            k >>= 1
+        return R
+
+
+def _m_inverse(i, base, a, kw, st, node):
+    if isinstance(base, int) and a and isinstance(a[0], int):
+        try:
+            return pow(base, -1, a[0])
+        except ValueError:
+            i._diverged = i.do_raise("ValueError", st, node)
+            return None
+    return UNK
+
+
+def toy_group_rows(check, repo, thorough=False):
+    ECCM = "Crypto.PublicKey.ECC"
+    mod = repo.module(ECCM)
+    cls = repo.cls(mod, "EccKey")
+    V = _tpoint_class()
+    f_sign, f_verify = repo.func(mod, "EccKey._sign"), repo.func(mod, "EccKey._verify")
+    nrows = 0
+    for (p, a, b) in ((17, 2, 6),) + (((43, 1, 5),) if thorough else ()):
+        T = _Toy(p, a, b)
+        n = T.n
+        big_x = sorted(set(T.mul(k, T.G)[0] for k in range(1, n) if T.mul(k, T.G)[0] >= n))
+        if not big_x:
+            raise AnalysisError("toy curve without an x-coordinate >= n")
+
+        def run(fn, d, args, blind=None):
+            it = Interp(repo, max_depth=6, method_models={"inverse": _m_inverse})
+            st = State()
+
+            def mk(P):
+                o = it.new_obj(st, mod, V, havoc=False)
+                st.heap[o.ident].update({"P": p, "A": a, "inf": P is None, "x": 0 if P is None else P[0], "y": 0 if P is None else P[1]})
+                return o
+            me = it.new_obj(st, mod, cls, havoc=False)
+            curve = it.new_obj(st, label="curve", attrs={"order": n, "G": mk(T.G)})
+            Q = mk(T.mul(d, T.G))
+            st.heap[me.ident].update({"_curve": curve, "_d": d, "_point": Q, "curve": "toy"})
+            it.inject = {"self.pointQ": Q, "Integer.random_range(min_inclusive=1, max_exclusive=order)": blind or 1}
+            res = it.run(mod, fn, args, self_obj=me, state=st)
+            rets = res.returns()
+            if len(rets) != 1 or res.raises():
+                return ("undecided", len(rets), res.raise_classes())
+            v = rets[0].value
+            return tuple(v) if isinstance(v, (tuple, list)) else v
+
+        def ref_verify(Q, z, r, s):
+            w = pow(s, -1, n)
+            X = T.add(T.mul(z * w % n, T.G), T.mul(r * w % n, Q))
+            return X is not None and X[0] % n == r
+        wrong_s, wrong_v, wrong_sv = [], [], []
+        zs = (0, 3, n + 2) if not thorough or p == 17 else (3,)
+        for d in range(1, n):
+            for k in range(1, n):
+                for z in zs:
+                    R = T.mul(k, T.G)
+                    r = R[0] % n
+                    s = pow(k, -1, n) * (z + d * r) % n
+                    got = run(f_sign, d, {"z": z, "k": k}, blind=1 + (d * k + z) % (n - 1))
+                    nrows += 1
+                    if got != (r, s):
+                        wrong_s.append("d=%d k=%d z=%d on y^2=x^3+%dx+%d mod %d (n=%d): %r, FIPS 186-4 6.3 gives %r" % (d, k, z, a, b, p, n, got, (r, s)))
+                        continue
+                    if r == 0 or s == 0:
+                        continue
+                    gv = run(f_verify, d, {"z": z, "rs": (r, s)})
+                    nrows += 1
+                    if gv is not True:
+                        wrong_sv.append("d=%d k=%d z=%d (n=%d, p=%d): the signature (r=%d, s=%d) just produced verifies as %r%s" % (
+                            d, k, z, n, p, r, s, gv, "; x_R = %d >= n" % R[0] if R[0] >= n else ""))
+        for d in ((1, 5) if not thorough else range(1, n, 3)):
+            Q = T.mul(d, T.G)
+            for z in (3, n + 9):
+                for r in range(1, n):
+                    for s in range(1, n):
+                        want = ref_verify(Q, z, r, s)
+                        got = run(f_verify, d, {"z": z, "rs": (r, s)})
+                        nrows += 1
+                        if got is not want:
+                            wrong_v.append("Q=%d*G z=%d (r=%d, s=%d) on the curve mod %d (n=%d): %r, FIPS 186-4 6.4 gives %r" % (d, z, r, s, p, n, got, want))
+        tag = "" if p == 17 else ".%d" % p
+        check.ob("K-pw", "K-pw|ecdsa.toy.sign" + tag, not wrong_s, mod.path, f_sign.lineno,
+                 extracted=("%d rows differ: " % len(wrong_s) + "; ".join(wrong_s[:2])) if wrong_s else "every (d, k, z) of the group of order %d: (r, s) as FIPS 186-4 6.3 (blinding included)" % n,
+                 expected="EccKey._sign computes r = x(kG) mod n, s = k^-1 (z + d r) mod n for every private key, nonce and digest of a complete toy group")
+        check.ob("K-pw", "K-pw|ecdsa.toy.sign-verify" + tag, not wrong_sv, mod.path, f_verify.lineno,
+                 extracted=("%d rows differ: " % len(wrong_sv) + "; ".join(wrong_sv[:2])) if wrong_sv else "every signature produced on the toy group verifies, including those with x(kG) in %s >= n" % big_x,
+                 expected="EccKey._verify accepts every signature EccKey._sign produces (r, s != 0), also when x(kG) >= n")
+        check.ob("K-pw", "K-pw|ecdsa.toy.verify" + tag, not wrong_v, mod.path, f_verify.lineno,
+                 extracted=("%d rows differ: " % len(wrong_v) + "; ".join(wrong_v[:2])) if wrong_v else "all (r, s) in [1, n)^2 for the chosen keys and digests: accepted exactly when FIPS 186-4 6.4 accepts",
+                 expected="EccKey._verify accepts (r, s) iff x(u1 G + u2 Q) mod n == r")
+    # ---- DSA on the subgroup of order 11 of (Z/23)* (and order 37 of (Z/149)* in the thorough tier)
+    DM = "Crypto.PublicKey.DSA"
+    dmod = repo.module(DM)
+    dcls = repo.cls(dmod, "DsaKey")
+    d_sign, d_verify = repo.func(dmod, "DsaKey._sign"), repo.func(dmod, "DsaKey._verify")
+    for (p, q) in ((23, 11),) + (((149, 37),) if thorough else ()):
+        g = [pow(h, (p - 1) // q, p) for h in range(2, p) if pow(h, (p - 1) // q, p) != 1][0]
+
+        def drun(fn, x, args, blind=1):
+            it = Interp(repo, max_depth=6, method_models={"inverse": _m_inverse},
+                        extra_models={"Crypto.Math.Numbers.Integer": lambda i, a, kw, st, node: a[0]})
+            st = State()
+            me = it.new_obj(st, dmod, dcls, havoc=False)
+            st.heap[me.ident].update({"_key": {"y": pow(g, x, p), "g": g, "p": p, "q": q, "x": x}})
+            it.inject = {"Integer.random_range(min_inclusive=1, max_exclusive=q)": blind, "self.q": q, "self.p": p, "self.g": g, "self.x": x, "self.y": pow(g, x, p)}
+            res = it.run(dmod, fn, args, self_obj=me, state=st)
+            rets = res.returns()
+            if len(rets) != 1 or res.raises():
+                return ("undecided", len(rets), res.raise_classes())
+            v = rets[0].value
+            return tuple(v) if isinstance(v, (tuple, list)) else v
+        wrong_s, wrong_v, wrong_sv = [], [], []
+        for x in range(1, q):
+            for k in range(2, q):
+                for m in (0, 3, q + 2):
+                    r = pow(g, k, p) % q
+                    s = pow(k, -1, q) * (m + x * r) % q
+                    got = drun(d_sign, x, {"m": m, "k": k}, blind=1 + (x * k + m) % (q - 1))
+                    nrows += 1
+                    if got != (r, s):
+                        wrong_s.append("x=%d k=%d m=%d (p=%d, q=%d, g=%d): %r, FIPS 186-4 4.6 gives %r" % (x, k, m, p, q, g, got, (r, s)))
+                        continue
+                    if r == 0 or s == 0:
+                        continue
+                    gv = drun(d_verify, x, {"m": m, "sig": (r, s)})
+                    nrows += 1
+                    if gv is not True:
+                        wrong_sv.append("x=%d k=%d m=%d: the signature (%d, %d) just produced verifies as %r" % (x, k, m, r, s, gv))
+        for x in (1, 5):
+            y = pow(g, x, p)
+            for m in (3, q + 9):
+                for r in range(0, q + 1):
+                    for s in range(0, q + 1):
+                        if 0 < r < q and 0 < s < q:
+                            w = pow(s, -1, q)
+                            want = (pow(g, m * w % q, p) * pow(y, r * w % q, p) % p) % q == r
+                        else:
+                            want = False
+                        got = drun(d_verify, x, {"m": m, "sig": (r, s)})
+                        nrows += 1
+                        if got is not want:
+                            wrong_v.append("y=g^%d m=%d (r=%d, s=%d), p=%d q=%d: %r, FIPS 186-4 4.7 gives %r" % (x, m, r, s, p, q, got, want))
+        tag = "" if p == 23 else ".%d" % p
+        check.ob("K-pw", "K-pw|dsa.toy.sign" + tag, not wrong_s, dmod.path, d_sign.lineno,
+                 extracted=("%d rows differ: " % len(wrong_s) + "; ".join(wrong_s[:2])) if wrong_s else "every (x, k, m) of the subgroup of order %d mod %d: (r, s) as FIPS 186-4 4.6" % (q, p),
+                 expected="DsaKey._sign computes r = (g^k mod p) mod q, s = k^-1 (m + x r) mod q on a complete toy group")
+        check.ob("K-pw", "K-pw|dsa.toy.sign-verify" + tag, not wrong_sv, dmod.path, d_verify.lineno,
+                 extracted=("%d rows differ: " % len(wrong_sv) + "; ".join(wrong_sv[:2])) if wrong_sv else "every signature produced on the toy group verifies",
+                 expected="DsaKey._verify accepts every signature DsaKey._sign produces")
+        check.ob("K-pw", "K-pw|dsa.toy.verify" + tag, not wrong_v, dmod.path, d_verify.lineno,
+                 extracted=("%d rows differ: " % len(wrong_v) + "; ".join(wrong_v[:2])) if wrong_v else "all (r, s) in [0, q]^2: accepted exactly when FIPS 186-4 4.7 accepts",
+                 expected="DsaKey._verify accepts (r, s) iff 0 < r, s < q and ((g^u1 y^u2) mod p) mod q == r")
+    check.count("toy_group_rows", nrows)
+
+
+def rsa_toy_rows(check, repo, thorough=False, rule="K-pw"):
+    """RsaKey._encrypt / _decrypt_to_bytes on complete toy moduli: the CRT recombination, the blinding and the final
+    multiplication are generic in the modulus, so they are interpreted for EVERY residue of n = p*q (two toy keys,
+    several blinding factors, the Integer back-ends that the checker can interpret) and compared with c^d mod n."""
+    from .int_table import Backend
+    from ..absval import AClass
+    RSAM = "Crypto.PublicKey.RSA"
+    mod = repo.module(RSAM)
+    cls = repo.cls(mod, "RsaKey")
+    f_enc, f_dec = repo.func(mod, "RsaKey._encrypt"), repo.func(mod, "RsaKey._decrypt_to_bytes")
+    nrows = 0
+    wrong_e, wrong_d, wrong_g = [], [], []
+    keys = [(11, 23, 3), (23, 11, 7)] + ([(251, 257, 17)] if thorough else [])       # p < q and p > q: the sign of (m2 - m1) and of u differ
+    for bname in ("native", "custom") + (("gmp",) if thorough else ()):
+        be = Backend(repo, bname)
+        for (p, q, e) in keys:
+            n = p * q
+            d = pow(e, -1, (p - 1) * (q - 1))
+            u = pow(p, -1, q)
+            nb = (n.bit_length() + 7) // 8
+
+            def run(fn, args, r):
+                it = be.interp()
+                st = State()
+                me = it.new_obj(st, mod, cls, havoc=False)
+                for k, v in (("_n", n), ("_e", e), ("_d", d), ("_p", p), ("_q", q), ("_dp", d % (p - 1)), ("_dq", d % (q - 1)), ("_u", u)):
+                    st.heap[me.ident][k] = be.make(it, st, v)
+                it.inject.update({"Integer": AClass(be.mod, be.cls),
+                                  "Integer.random_range(min_inclusive=1, max_exclusive=self._n)": be.make(it, st, r)})
+                res = it.run(mod, fn, args, self_obj=me, state=st)
+                if res.rejected():
+                    return ("raises",) + tuple(sorted(set(k[1] for k in res.killers if k[0] == "raise") or set(res.raise_classes())))
+                rets = res.returns()
+                if len(rets) != 1 or res.raises():
+                    return ("undecided", len(rets), tuple(res.raise_classes()))
+                v = rets[0].value
+                return bytes(v) if isinstance(v, (bytes, bytearray)) else v
+            step = 1 if (n < 300 and bname == "native" and (p < q or thorough)) else (5 if n < 300 else 97)
+            for c in list(range(0, n, step)) + [n - 1]:
+                r = [2, n - 1, 7, (c * 5 + 3) % n][c % 4]
+                while r % p == 0 or r % q == 0 or r == 0:
+                    r += 1
+                got = run(f_dec, {"ciphertext": c}, r)
+                nrows += 1
+                want = pow(c, d, n).to_bytes(nb, "big")
+                if got != want:
+                    wrong_d.append("%s back-end, n=%d*%d, c=%d, blinding r=%d: %r, c^d mod n is %r" % (bname, p, q, c, r, got, want))
+            for m in list(range(0, n, step * 2)) + [n - 1]:
+                got = run(f_enc, {"plaintext": m}, 2)
+                nrows += 1
+                if got != pow(m, e, n) or isinstance(got, bool):
+                    wrong_e.append("%s back-end, n=%d, m=%d: %r, m^e mod n is %d" % (bname, n, m, got, pow(m, e, n)))
+            for fn, arg in ((f_dec, "ciphertext"), (f_enc, "plaintext")):
+                for v in (n, n + 1, -1):
+                    got = run(fn, {arg: v}, 2)
+                    nrows += 1
+                    if got != ("raises", "ValueError"):
+                        wrong_g.append("%s(%d) with n=%d: %r" % (fn.name, v, n, got))
+    check.ob(rule, rule + "|rsa.toy.decrypt", not wrong_d, mod.path, f_dec.lineno,
+             extracted=("%d rows differ: " % len(wrong_d) + "; ".join(wrong_d[:2])) if wrong_d else "every residue of the toy moduli: blinded CRT decryption = c^d mod n, as len(n) bytes",
+             expected="RsaKey._decrypt_to_bytes(c) = (c^d mod n) as len(n) big-endian bytes for every c in [0, n), whatever the blinding factor (p < q and p > q)")
+    check.ob(rule, rule + "|rsa.toy.encrypt", not wrong_e, mod.path, f_enc.lineno,
+             extracted=("%d rows differ: " % len(wrong_e) + "; ".join(wrong_e[:2])) if wrong_e else "m^e mod n as an int for the residues of the toy moduli",
+             expected="RsaKey._encrypt(m) = m^e mod n (an int)")
+    check.ob(rule, rule + "|rsa.toy.range", not wrong_g, mod.path, f_dec.lineno,
+             extracted="; ".join(wrong_g[:3]) if wrong_g else "n, n+1 and -1 are refused with ValueError by both primitives",
+             expected="operands outside [0, n) are refused with ValueError (RFC 8017 5.1)")
+    check.count("rsa_toy_rows", nrows)
+
+
+def dss_zero_component_rows(check, repo):
+    """FIPS 186-4 4.6 / 6.3: 'if r = 0 or s = 0, a new value of k shall be generated'.  DssSigScheme.sign is
+    interpreted with the raw primitive replaced by one that answers (0, s), (r, 0) and then a proper pair: the bytes
+    returned must never encode a zero component (verify() refuses those, so sign-then-verify would fail)."""
+    DSSM = "Crypto.Signature.DSS"
+    mod = repo.module(DSSM)
+    fn = repo.func(mod, "DssSigScheme.sign")
+    wrong = []
+    for enc in ("binary", "der"):
+        for first in ((0, 5), (7, 0)):
+            answers = [first, (3, 9), (3, 9)]
+            calls = []
+
+            def m_sign(i, base, a, kw, st, node, answers=answers, calls=calls):
+                calls.append(a)
+                return answers[min(len(calls) - 1, len(answers) - 1)]
+            it = Interp(repo, max_depth=10, budget=3000000,
+                        method_models={"_sign": m_sign, "_valid_hash": lambda i, base, a, kw, st, node: True,
+                                       "has_private": lambda i, base, a, kw, st, node: True,
+                                       "_compute_nonce": lambda i, base, a, kw, st, node: 11,
+                                       "digest": lambda i, base, a, kw, st, node: bytes(32)},
+                        extra_models={"Crypto.Util.asn1.DerSequence": False, "Crypto.Util.asn1.DerInteger": False,
+                                      "Crypto.Util.asn1.DerObject": False})
+            st = State()
+            me = it.new_obj(st, mod, repo.cls(mod, "DeterministicDsaSigScheme"), havoc=False)
+            st.heap[me.ident].update({"_encoding": enc, "_order": 101, "_order_bits": 7, "_order_bytes": 1,
+                                      "_key": it.new_obj(st, label="key"), "_private_key": 5})
+            res = it.run(mod, fn, {"msg_hash": it.new_obj(st, label="hash")}, self_obj=me, state=st)
+            rets = res.returns()
+            for r in rets:
+                v = bytes(r.value) if isinstance(r.value, (bytes, bytearray)) else None
+                zero = (bytes([first[0], first[1]]) if enc == "binary" else None)
+                if v is None:
+                    wrong.append("%s encoding, primitive answers %r: output undecided" % (enc, first))
+                elif (enc == "binary" and v == zero) or (enc == "der" and (b"\x02\x01\x00" in v)):
+                    wrong.append("%s encoding: the pair %r of the raw primitive is returned as %s" % (enc, first, v.hex()))
+    check.ob("G", "G|dss.sign.zero", not wrong, mod.path, fn.lineno,
+             extracted="; ".join(wrong[:2]) + (" (+%d)" % (len(wrong) - 2) if len(wrong) > 2 else "") if wrong else "a zero r or s of the raw primitive is never emitted (new nonce or error)",
+             expected="FIPS 186-4 4.6 / 6.3: sign() never outputs r = 0 or s = 0 (such a signature is refused by verify())")
+
+
+def rfc6979_conversion_rows(check, repo):
+    """RFC 6979 2.3.2 - 2.3.4: bits2int keeps the leftmost qlen bits, int2octets pads to rlen = ceil(qlen / 8) bytes
+    for EVERY 0 <= x < q, bits2octets reduces once modulo q.  Interpreted on boundary bit strings (value 0, q - 1, q,
+    q + 1, all ones; shorter than, as long as and longer than qlen) for orders whose bit length is and is not a
+    multiple of 8."""
+    from .int_table import Backend
+    DSSM = "Crypto.Signature.DSS"
+    mod = repo.module(DSSM)
+    cls = repo.cls(mod, "DeterministicDsaSigScheme")
+    be = Backend(repo, "native")
+    from ..absval import AClass
+    wrong = []
+    n = 0
+    orders = [101, 0xFFF1, (1 << 127) - 1, (1 << 160) - 47, (1 << 521) - 1 - (1 << 200), (1 << 252) + 27742317777372353535851937790883648493]
+    for q in orders:
+        qlen = q.bit_length()
+        rlen = (qlen + 7) // 8
+
+        def ref_bits2int(b):
+            v = int.from_bytes(b, "big")
+            return v >> (len(b) * 8 - qlen) if len(b) * 8 > qlen else v
+
+        def run(fname, args):
+            it = be.interp()
+            st = State()
+            me = it.new_obj(st, mod, cls, havoc=False)
+            st.heap[me.ident].update({"_order": be.make(it, st, q), "_order_bits": qlen, "_order_bytes": rlen, "_encoding": "binary"})
+            it.inject.update({"Integer": AClass(be.mod, be.cls)})
+            it.assert_raises = True
+            args = dict((k, be.make(it, st, v) if isinstance(v, int) else v) for k, v in args.items())
+            res = it.run(mod, repo.func(mod, "DeterministicDsaSigScheme." + fname), args, self_obj=me, state=st)
+            if res.rejected() or res.raises():
+                return ("raises",) + tuple(sorted(set(res.raise_classes())))
+            rets = res.returns()
+            if len(rets) != 1:
+                return ("undecided", len(rets))
+            v = rets[0].value
+            if be.is_own(v):
+                return be.value(rets[0].state, v)
+            return bytes(v) if isinstance(v, (bytes, bytearray)) else v
+        strings = []
+        for L in sorted(set([rlen, rlen + 1, rlen + 12, max(1, rlen - 1), 64])):
+            for v in (0, 1, q - 1, q, q + 1, (1 << (8 * L)) - 1, q << max(0, 8 * L - qlen), (q << max(0, 8 * L - qlen)) + (1 << max(0, 8 * L - qlen)) - 1):
+                if 0 <= v < (1 << (8 * L)):
+                    strings.append(v.to_bytes(L, "big"))
+        for b in strings:
+            want = ref_bits2int(b)
+            got = run("_bits2int", {"bstr": b})
+            n += 1
+            if got != want:
+                wrong.append("bits2int(%s..[%d bytes]) with qlen=%d: %r, RFC 6979 2.3.2 gives %#x" % (b[:4].hex(), len(b), qlen, got, want))
+            z1 = want
+            z2 = z1 - q if z1 >= q else z1
+            if 0 <= z2 < q:
+                got = run("_bits2octets", {"bstr": b})
+                n += 1
+                if got != z2.to_bytes(rlen, "big"):
+                    wrong.append("bits2octets(%s..[%d bytes]) with q of %d bits (bits2int = %s): %r, RFC 6979 2.3.4 gives %s" % (
+                        b[:4].hex(), len(b), qlen, "0" if z1 == 0 else ("q" if z1 == q else hex(z1)[:12]), got if not isinstance(got, bytes) else got.hex()[:16], z2.to_bytes(rlen, "big").hex()[:16]))
+        for x in (0, 1, 255, 256, q - 1):
+            if 0 <= x < q:
+                got = run("_int2octets", {"int_mod_q": x})
+                n += 1
+                if got != x.to_bytes(rlen, "big"):
+                    wrong.append("int2octets(%s) with q of %d bits: %r, RFC 6979 2.3.3 gives %d bytes" % ("q-1" if x == q - 1 else x, qlen, got if not isinstance(got, bytes) else got.hex()[:16], rlen))
+    fn = repo.func(mod, "DeterministicDsaSigScheme._bits2octets")
+    check.ob("K-pw", "K-pw|rfc6979.conversions", not wrong, mod.path, fn.lineno,
+             extracted=("%d of %d rows differ: " % (len(wrong), n) + "; ".join(wrong[:3])) if wrong else "%d rows over %d orders as RFC 6979 2.3.2-2.3.4" % (n, len(orders)),
+             expected="bits2int / int2octets / bits2octets of RFC 6979 for every bit string and every 0 <= x < q (a hash value that is 0 or q after bits2int included)")
+    check.count("rfc6979_rows", n)
